@@ -377,6 +377,15 @@ pub fn run(prop: &str, tier: &str, replay: Option<&str>) -> i32 {
         rep.add(sec);
     }
     // 3. error texts: edits of the key's PEM text
+    let bundle_cert_pem: String = {
+        let z = load_zoo();
+        let ed = z.iter().find(|z| z.kind == KeyKind::Ed25519).unwrap();
+        let kp = rc_load(ed, Alg::Ed25519).expect("ed25519 key");
+        let mut st = CertState::default();
+        st.dn = DnSpec::cn("bundle");
+        st.serial = Some(vec![1]);
+        to_params(&st).unwrap().self_signed(&kp).unwrap().pem()
+    };
     for (ki, k) in keys.iter().enumerate() {
         if k.label.starts_with("generated") && !thorough {
             continue;
@@ -388,9 +397,10 @@ pub fn run(prop: &str, tier: &str, replay: Option<&str>) -> i32 {
         };
         let text = refmodel::pem::encode(label, &k.der);
         let tb = text.as_bytes().to_vec();
+        let bundle_cert: &str = &bundle_cert_pem;
         let alphabet: &[u8] = if thorough { b"\n\r -=:A/+\x00\xff,;#" } else { b"\n -=A\x00" };
         let positions: Vec<usize> = (0..=tb.len()).filter(|p| thorough || tb.len() < 400 || *p < 140 || *p + 70 > tb.len()).collect();
-        let sec = Section::new(&format!("errors-pem-d1/key{:02} {}", ki, k.label), "PEM text of the private key with, at every position, every character of a 15-character boundary alphabet overwritten and inserted, the character deleted, and the text truncated there; plus wrong labels; through every PEM loader and parser").with_deadline(if thorough { 900 } else { 30 });
+        let sec = Section::new(&format!("errors-pem-d1/key{:02} {}", ki, k.label), "PEM text of the private key with, at every position, every character of a 15-character boundary alphabet overwritten and inserted, the character deleted, and the text truncated there; each variant alone and inside a bundle (followed by a certificate block, preceded by one, followed by a second key block); through every PEM loader and parser").with_deadline(if thorough { 900 } else { 30 });
         run::sweep_cases(&sec, &positions, &|p| format!("position {}", p), &|p| {
             let mut out = Outcome::default();
             let mut variants: Vec<Vec<u8>> = Vec::new();
@@ -413,6 +423,15 @@ pub fn run(prop: &str, tier: &str, replay: Option<&str>) -> i32 {
             for v in variants {
                 if let Ok(t) = std::str::from_utf8(&v) {
                     out.transitions += loaders_errors(&[], Some(t), &k.needles, &mut out.findings);
+                    // the same damaged key block inside a bundle: followed by / preceded by a certificate block
+                    // (the usual combined key+certificate file), and followed by a second private key block
+                    for bundle in [format!("{}{}", t, bundle_cert), format!("{}{}", bundle_cert, t), format!("{}{}", t, text)] {
+                        let before = out.findings.len();
+                        out.transitions += loaders_errors(&[], Some(&bundle), &k.needles, &mut out.findings);
+                        for f in out.findings[before..].iter_mut() {
+                            f.locus = format!("{} (bundle)", f.locus);
+                        }
+                    }
                 }
             }
             out.findings.dedup_by(|a, b| a.sig() == b.sig());
